@@ -157,7 +157,19 @@ func (w *worker) writeJournal() {
 	w.journal.WriteAt(b[:], 0)
 }
 
+// execute runs the case and applies the case-level oracles that do not depend on the reactor.
 func (w *worker) execute(cs *caseT) *outcome {
+	out := w.execute1(cs)
+	if why := expectReject(cs); why != "" {
+		out.RejectExpected = true
+		if !rejectedStage(out.Stage) && cs.Peer != peerGone && !(cs.Reactor == "txpool" && cs.Peer != peerKnown) {
+			out.viol("invalid-accepted", "%s must be rejected (decode error, sending peer stopped, or no effect at all) but the delivery ended at stage %q", why, out.Stage)
+		}
+	}
+	return out
+}
+
+func (w *worker) execute1(cs *caseT) *outcome {
 	if cs.Kind == "roundtrip" {
 		out := &outcome{Stage: "roundtrip-ok", Decoded: true}
 		if pr := roundTrip(cs.Reactor, cs.bytes()); pr != "" {
@@ -220,11 +232,8 @@ func (w *worker) emit(cs *caseT) {
 	w.caseIdx = idx + 1
 	out := w.execute(cs)
 	r := w.res
-	if why := expectReject(cs); why != "" {
+	if out.RejectExpected {
 		r.Notes["rejection-expected"]++
-		if !rejectedStage(out.Stage) && cs.Peer != peerGone && !(cs.Reactor == "txpool" && cs.Peer != peerKnown) {
-			out.viol("invalid-accepted", "%s must be rejected (decode error, sending peer stopped, or no effect at all) but the delivery ended at stage %q", why, out.Stage)
-		}
 	}
 	r.Cases++
 	r.Deliveries += int64(1 + len(cs.pre))
@@ -269,9 +278,6 @@ func (w *worker) emit(cs *caseT) {
 		for i := 0; i < 5; i++ {
 			w.dropState(cs)
 			again := w.execute(cs)
-			if why := expectReject(cs); why != "" && !rejectedStage(again.Stage) && cs.Peer != peerGone && !(cs.Reactor == "txpool" && cs.Peer != peerKnown) {
-				again.viol("invalid-accepted", "again")
-			}
 			if got := oracleSet(again); got != want {
 				c := *cs
 				c.freeze()
